@@ -63,7 +63,15 @@ func runSolver(ctx context.Context, sv solverSpec, file string, timeoutS int) (s
 	_ = cmd.Run()
 	secs = time.Since(t0).Seconds()
 	out = buf.String()
-	first := strings.TrimSpace(strings.SplitN(out, "\n", 2)[0])
+	first := ""
+	for _, l := range strings.Split(out, "\n") {
+		l = strings.TrimSpace(l)
+		if l == "" || strings.HasPrefix(l, "WARNING") {
+			continue
+		}
+		first = l
+		break
+	}
 	switch first {
 	case "unsat", "sat", "unknown":
 		status = first
@@ -293,6 +301,14 @@ func sanitizeFile(s string) string {
 // parseValues reads the (get-value ...) answer: ((term value) (term value) ...)
 func parseValues(out string, o *Obligation) map[string]string {
 	m := map[string]string{}
+	// skip warnings, then the status line
+	for strings.HasPrefix(strings.TrimSpace(out), "WARNING") {
+		j := strings.Index(out, "\n")
+		if j < 0 {
+			return m
+		}
+		out = out[j+1:]
+	}
 	i := strings.Index(out, "\n")
 	if i < 0 {
 		return m
